@@ -133,12 +133,12 @@ pub(crate) mod verif_logic {
         let ops = Ops {
             nodes: [MD::new(Value::Null), MD::new(Value::Null), MD::new(Value::Null), MD::new(Value::Null), MD::new(Value::Null), MD::new(Value::Null)],
             outs: [
-                MD::new(Value::Number(Number::from(u[0]))),
-                MD::new(Value::Number(Number::from(u[1]))),
-                MD::new(Value::Number(Number::from(u[2]))),
-                MD::new(Value::Number(Number::from(u[3]))),
-                MD::new(Value::Number(Number::from(u[4]))),
-                MD::new(Value::Number(Number::from(u[5]))),
+                MD::new(Value::Number(ev::outcome_number(0, u[0]))),
+                MD::new(Value::Number(ev::outcome_number(1, u[1]))),
+                MD::new(Value::Number(ev::outcome_number(2, u[2]))),
+                MD::new(Value::Number(ev::outcome_number(3, u[3]))),
+                MD::new(Value::Number(ev::outcome_number(4, u[4]))),
+                MD::new(Value::Number(ev::outcome_number(5, u[5]))),
             ],
             u,
             n,
@@ -190,7 +190,7 @@ pub(crate) mod verif_logic {
     pub(crate) fn check_result(ops: &Ops, r: &Result<Value, Error>, want: Option<usize>, null_ok: bool) {
         match (r, want) {
             (Err(_), None) => {}
-            (Ok(Value::Number(n)), Some(i)) => assert!(n.as_u64() == Some(ops.u[i]), "lazy operator returned the value of the wrong operand (or a boolean instead of the value itself)"),
+            (Ok(Value::Number(n)), Some(i)) => assert!(ev::is_outcome_number(n, i, ops.u[i]), "lazy operator returned the value of the wrong operand (or a boolean instead of the value itself)"),
             (Ok(Value::Null), None) if null_ok => {}
             _ => assert!(false, "lazy operator: result differs from the spec (Err vs value vs null)"),
         }
